@@ -81,7 +81,7 @@ func c15Observe(e *c15Entry, idx int, deep bool, when string) error {
 	if err != nil || a.EncodeAddress() != refCashEncode(nets[0].Params.CashAddressPrefix, 0, hash160(e.r.pubBytes())) {
 		return fmt.Errorf("%s: Address() changed (err %v)", where, err)
 	}
-	for _, i := range []uint32{0, 1} {
+	for _, i := range []uint32{0, 1, 0x80000000} {
 		ck, err := e.k.Child(i)
 		cr, rerr := e.r.child(i)
 		if rerr == errRefBadChild {
@@ -465,6 +465,21 @@ func TestC15(t *testing.T) {
 		}
 		// regression: neutered twin survives zeroing of the private key (and vice versa)
 		seed := bytes.Repeat([]byte{7}, 16)
+		// a key whose private scalar has two leading zero bytes (one child in 65536; found with the reference),
+		// derived, re-parsed from its string, neutered: how it was obtained must not matter for what it derives
+		if shard == 0 {
+			lzSeed := bytes.Repeat([]byte{0x3c}, 32)
+			if r, err := refMaster(lzSeed, 0); err == nil {
+				pub := r.pubBytes()
+				for d := uint32(0); d < 600000; d++ {
+					if refChildScalarHasLZ(r, pub, 0x80000000+d, 2) {
+						kC15.One(ev, c15Case{Ops: []c15Op{{Op: "newmaster", Seed: lzSeed}, {Op: "child", A: 0, I: 0x80000000 + d}, {Op: "fromstring", A: 1},
+							{Op: "neuter", A: 1}, {Op: "child", A: 1, I: 0x80000005}, {Op: "child", A: 2, I: 0x80000005}, {Op: "zero", A: 0}}})
+						break
+					}
+				}
+			}
+		}
 		kC15.One(ev, c15Case{Ops: []c15Op{{Op: "newmaster", Seed: seed}, {Op: "neuter", A: 0}, {Op: "zero", A: 0}}})
 		kC15.One(ev, c15Case{Ops: []c15Op{{Op: "newmaster", Seed: seed}, {Op: "neuter", A: 0}, {Op: "zero", A: 1}}})
 		kC15.Run(t, ev, perShard(pick(1500, 400000)))
